@@ -104,7 +104,9 @@ def run_shard(shard, tier, h, res, known):
         out = {}
         try:
             for phase, doc in (("plain", make_rule_doc(["zzzznomatch"])), ("tagged", make_rule_doc(["zzzznomatch"], conf)),
-                               ("call", make_rule_doc([{"call": ["valid_addr"]}], conf)), ("jmp", make_rule_doc([{"jmp": ["valid_addr"]}], conf))):
+                               ("call", make_rule_doc([{"call": ["valid_addr"]}], conf)),
+                               # the same range with its keys written in the other order (max before min)
+                               ("jmp", make_rule_doc([{"jmp": ["valid_addr"]}], {"valid_addr_range": {"max": shi, "min": slo}}))):
                 m = h.mop(doc)
                 for idx, att, text, path, specs in mat:
                     if phase in ("plain", "tagged"):
